@@ -81,7 +81,7 @@ TStep ==            \* one step of the intended automaton, pinned to the log whe
 
 TEnd ==             \* the case's events are all consumed and the API is not entered
   /\ pc # "rest" /\ obs.phase = "idle" /\ flight = NoExc
-  /\ (l = Len(Log) + 1 \/ Log[l].ev = "Begin")
+  /\ (IF l = Len(Log) + 1 THEN TRUE ELSE Log[l].ev = "Begin")
   /\ PrintT(ToJson([ followed |-> Log[l - 1].id ]))
   /\ c' = RestCase /\ pc' = "rest" /\ obs' = ObsInit /\ flight' = NoExc /\ reach' = 0 /\ calls' = 0
   /\ l' = l
